@@ -18,6 +18,10 @@
 (*              queries) that contains a live query, followed by a closing *)
 (*              write-out and a closing full live query: live queries at   *)
 (*              every position between packets and write-outs              *)
+(*   "orient4" / "orient5" / "orient6x4"   every sequence of that length   *)
+(*              over the handshake and later segments of a conversation    *)
+(*              between two ephemeral ports, a write-out and a live query  *)
+(*              (6x4: also an IPv6 conversation on the second interface)   *)
 (*   "cond-quick" / "cond-thorough"   one long schedule per chunk of       *)
 (*              condition trees: all 24 flows in memory and on disk on two *)
 (*              interfaces, then one live query per tree (all attributes), *)
@@ -34,7 +38,9 @@ VARIABLES sched, pc, hist, done
 LOCAL INSTANCE SequencesExt
 
 GIfaces == {"lq0", "lq1"}
-P(i, c, v, d, sz) == [a |-> "P", i |-> i, c |-> c, v |-> v, d |-> d, sz |-> sz]
+P(i, c, v, d, sz) == [a |-> "P", i |-> i, c |-> c, v |-> v, d |-> d, sz |-> sz, k |-> "open"]
+\* a later packet of the conversation that carries no orientation of its own
+PC(i, c, v, d, sz) == [a |-> "P", i |-> i, c |-> c, v |-> v, d |-> d, sz |-> sz, k |-> "cont"]
 W == [a |-> "W"]
 L(q) == [a |-> "L", q |-> q]
 Q(ifs, attrs, cond) == [ifs |-> ifs, attrs |-> attrs, cond |-> cond]
@@ -51,6 +57,14 @@ PosAlpha == { P("lq0", 1, 1, "in", 100),      \* 10.200.0.1 -> 10.0.0.1 tcp/80 (
               P("lq1", 13, 1, "in", 1280),    \* 2001::1 -> a00::1 tcp/80
               W, L(QFull), L(QNine) }
 PosScheds(n) == {s \o <<W, L(QFull)>> : s \in {f \in [1..n -> PosAlpha] : \E j \in 1..n : f[j].a = "L"}}
+
+\* ---- orientation family: a conversation between two ephemeral ports (handshake, later segments in
+\* both interface directions), write-outs and live queries in every order - what the database holds
+\* after a segment depends on whether the capture still remembers the conversation
+OrAlpha4 == { P("lq0", 25, 1, "in", 74), PC("lq0", 25, 1, "out", 1500), PC("lq0", 25, 1, "in", 52), W, L(QFull) }
+OrAlpha6 == OrAlpha4 \cup { P("lq1", 27, 1, "out", 94), PC("lq1", 27, 1, "in", 1280), L(Q({"lq0"}, {"sip", "dport"}, NoCond)) }
+OrScheds(A, n) == {s \o <<W, L(QFull)>> : s \in {f \in [1..n -> A] : /\ \E j \in 1..n : f[j].a = "L"
+                                                                   /\ \E j \in 1..n : f[j].a = "P"}}
 
 \* ---- conditions family
 Fill1 == [c \in 1..24 |-> P("lq0", c, 1, "in", 100 + c)]
@@ -85,8 +99,13 @@ Lify(qs) == [j \in 1..Len(qs) |-> L(qs[j])]
 CondScheds(T) == {CondPrefix \o Lify(ch) \o <<W, L(QFull)>> : ch \in Chunks(SetToSeq(CondQueries(T)))}
 
 \* ---- free mode (simulation): packets of every flow, both directions, both interfaces
-FreePkts == {[i |-> i, c |-> c, v |-> v, d |-> d, sz |-> 40 + 7 * c + v] :
+FreePkts == {[i |-> i, c |-> c, v |-> v, d |-> d, sz |-> 40 + 7 * c + v, k |-> "open"] :
                i \in GIfaces, c \in {1, 3, 8, 9, 13, 17, 20, 21}, v \in {1, 2}, d \in {"in", "out"}}
+            \cup {[i |-> i, c |-> c, v |-> 1, d |-> d, sz |-> 40 + 7 * c, k |-> k] :
+               i \in GIfaces, c \in {25, 27}, d \in {"in", "out"}, k \in {"open", "cont"}}
+            \* segments without SYN towards a service port: classified as sent with or without memory
+            \cup {[i |-> i, c |-> c, v |-> 1, d |-> "in", sz |-> 41 + 7 * c, k |-> "cont"] :
+               i \in GIfaces, c \in {1, 8, 13, 20}}
 FreeQueries == CondQueries(Core6) \cup {QFull, QNine}
 
 \* ---- pseudo-random schedules (products stay far below 2^31)
@@ -97,7 +116,7 @@ PktSeq == SetToSeq(FreePkts)
 QrySeq == SetToSeq(FreeQueries)
 Pick(r) == LET kind == r % 10
                j == r \div 10
-           IN IF kind < 6 THEN LET p == PktSeq[1 + (j % Len(PktSeq))] IN P(p.i, p.c, p.v, p.d, p.sz)
+           IN IF kind < 6 THEN LET p == PktSeq[1 + (j % Len(PktSeq))] IN [a |-> "P"] @@ p
               ELSE IF kind = 6 THEN W
               ELSE L(QrySeq[1 + (j % Len(QrySeq))])
 RandSched(x) == LET rs == RndSeq(x, Depth) IN [j \in 1..Depth |-> Pick(rs[j])] \o <<W, L(QFull)>>
@@ -107,13 +126,16 @@ Scheds == CASE GenSet = "pos2" -> PosScheds(2)
             [] GenSet = "pos3" -> PosScheds(3)
             [] GenSet = "pos4" -> PosScheds(4)
             [] GenSet = "pos5" -> PosScheds(5)
+            [] GenSet = "orient4" -> OrScheds(OrAlpha4, 4)
+            [] GenSet = "orient5" -> OrScheds(OrAlpha4, 5)
+            [] GenSet = "orient6x4" -> OrScheds(OrAlpha6, 4)
             [] GenSet = "cond-tiny"     -> CondScheds(Core4)
             [] GenSet = "cond-quick"    -> CondScheds(QuickTrees)
             [] GenSet = "cond-thorough" -> CondScheds(ThoroughTrees)
             [] GenSet = "rand" -> RandScheds
             [] GenSet = "free" -> {<<>>}
 
-Do(x) == CASE x.a = "P" -> Packet(x.i, x.c, x.v, x.d, x.sz)
+Do(x) == CASE x.a = "P" -> Packet(x.i, x.c, x.v, x.d, x.sz, x.k)
            [] x.a = "W" -> Writeout
            [] x.a = "L" -> LiveQuery(x.q)
 
